@@ -31,13 +31,13 @@ from fractions import Fraction
 from harness import util, dyn
 
 THEOREMS = ['C05_rest_isothermal_steady', 'C05_primeq_column_refines_spec', 'C05_primeq_column_refines_spec_moist',
-            'C05_primeq_column_refines_momentum', 'C05_primeq_refines_spec', 'C05_primeq_refines_spec_modal_moist',
-            'C05_rest_isothermal_steady_moist', 'C05_flux_form_is_advective_form', 'C05_operators',
-            'C05_zonal_polynomial_derivative', 'C05_solid_body_steady', 'C05_sw_polynomial_jet_steady',
-            'C05_sw_solid_body_one_layer', 'C05_one_layer_formulas_balanced', 'C05_multi_layer_formulas_balanced',
-            'C05_differential_ring_instance', 'C05_solid_body_steady_series', 'C05_sw_solid_body_series',
-            'C05_rest_isothermal_steady_R', 'C05_hyps_satisfiable', 'C05_modal_hyps_satisfiable',
-            'C05_rest_moist_hyps_satisfiable']
+            'C05_primeq_column_refines_momentum', 'C05_upwind_is_spec', 'C05_primeq_refines_spec',
+            'C05_primeq_refines_spec_modal_moist', 'C05_rest_isothermal_steady_moist',
+            'C05_flux_form_is_advective_form', 'C05_operators', 'C05_zonal_polynomial_derivative',
+            'C05_solid_body_steady', 'C05_sw_polynomial_jet_steady', 'C05_sw_solid_body_one_layer',
+            'C05_one_layer_formulas_balanced', 'C05_multi_layer_formulas_balanced', 'C05_differential_ring_instance',
+            'C05_solid_body_steady_series', 'C05_sw_solid_body_series', 'C05_rest_isothermal_steady_R',
+            'C05_hyps_satisfiable', 'C05_modal_hyps_satisfiable', 'C05_rest_moist_hyps_satisfiable']
 LEVEL = 'proof'
 LEVEL_TEXT = ('machine-checked theorems (Coq), every field, every layer count, every level set: the nodal column algebra of '
               'the implementation (explicit + implicit) equals the documented vertical discretisation of the continuous '
@@ -60,7 +60,10 @@ LEVEL_NOTE = ('three groups of theorems: (A) rest state on the model with abstra
               'Model/PrimEq.v against the vertical discretisation of the spec, (C) identities of the specification over an '
               'abstract commutative differential ring (non-vacuity: C05_differential_ring_instance, power series over Qc; the '
               'instance theorems use functional extensionality). '
-              'The modal-layer theorems assume H_div_grad, H_curl_grad, lap_const (moist: H_leibniz, H_leibniz_curl) and b_0 = 0; that '
+              'The modal-layer theorems assume H_div_grad, H_curl_grad, lap_const (moist: H_leibniz, H_leibniz_curl) and b_0 = 0; the upwind option '
+              'is proved only at the operator level (C05_upwind_is_spec); its use inside the tendencies and the dense / matrix-free '
+              'vertical products are covered by Oracle A (the momentum part of the upwind term goes through the implementation\'s '
+              'linear spectral div/curl); that '
               'to_modal of a nodal product is the exact projection of the product of the continuous fields (alias-freeness) is '
               'neither assumed nor proved: this last link to the continuous equations is decided by exploration (Oracle A). steady_state_jw and '
               'the barotropic-instability jet are not band-limited and are explored with loose, labelled tolerances; '
@@ -236,6 +239,14 @@ def pe_spec(p, st):
         acc = acc + full[k] * th[k]; cum.append(acc)
     tot = cum[-1]
     sdot = [tot * float(p['b'][r + 1]) - cum[r] for r in range(K - 1)]     # sigma_dot at the internal boundaries
+    upwind = p.get('vadv', 'centered') == 'upwind'
+    # the two halves of sigma_dot (semi-implicit split): from u.grad(lnps) and from the divergence
+    cumG = []; acc = Fn.const(0.0)
+    for k in range(K):
+        acc = acc + G[k] * th[k]; cumG.append(acc)
+    sdotG = [cumG[-1] * float(p['b'][r + 1]) - cumG[r] for r in range(K - 1)]
+    sdotD = [sdot[r] - sdotG[r] for r in range(K - 1)]
+    zero_col = [Fn.const(0.0)] * K
     eps = p['Rv'] / R - 1.0
     q = st.get('q')
     if kind == 'dry' or kind == 'time':
@@ -252,7 +263,8 @@ def pe_spec(p, st):
         s = oro * p['g'] + Tgeo[j] * (R * al[j])
         for k in range(j + 1, K): s = s + Tgeo[k] * (R * (al[k] + al[k - 1]))
         phi.append(s)
-    vU = vadv(sdot, U, cen); vV = vadv(sdot, V, cen)
+    # with the upwind option the (non-polynomial) vertical advection terms are added at the nodes by the caller
+    vU = zero_col if upwind else vadv(sdot, U, cen); vV = zero_col if upwind else vadv(sdot, V, cen)
     out = {'vorticity': [], 'divergence': [], 'scale': {}}
     mags = {'vorticity': [], 'divergence': [], 'temperature': [], 'lnps': []}
     for k in range(K):
@@ -274,17 +286,17 @@ def pe_spec(p, st):
         s = cum[n] * al[n]
         if n: s = s + cum[n - 1] * al[n - 1]
         wp.append(G[n] - s * (1.0 / th[n]))
-    vT = vadv(sdot, T, cen)
+    vT = zero_col if upwind else vadv(sdot, T, cen)
     out['T_adv'] = [-(U[k] * T[k].dlon() + V[k] * T[k].dmu()).sec2() * (1 / a) + vT[k] for k in range(K)]
     out['T_omega'] = wp            # multiplied at the nodes by kappa * T * (moist factor)
     out['T'] = T; out['q'] = q
     tr = {}
     for name, X in st.get('tracers', {}).items():
-        vX = vadv(sdot, X, cen)
+        vX = zero_col if upwind else vadv(sdot, X, cen)
         tr[name] = [-(U[k] * X[k].dlon() + V[k] * X[k].dmu()).sec2() * (1 / a) + vX[k] for k in range(K)]
     out['tracers'] = tr
     out['mags'] = mags
-    out['fields'] = dict(U=U, V=V, zeta=zeta, delta=delta, G=G, sdot=sdot, phi=phi, Tv=Tv)
+    out['fields'] = dict(U=U, V=V, zeta=zeta, delta=delta, G=G, sdot=sdot, sdotG=sdotG, sdotD=sdotD, phi=phi, Tv=Tv)
     return out
 
 
@@ -382,9 +394,37 @@ def one_modal(g):
     return out
 
 
-def compare_modal(ctx, clause, g, impl, spec_nodal, scale, tol=1e-10):
-    """impl: modal total tendency; spec_nodal: nodal values of the pointwise spec; all coefficients below the top wavenumber"""
+def upwind_np(w, X, cen):
+    """documented first-order upwind vertical advection (compact form, sigma_coordinates.upwind_vertical_advection):
+    -(max(w_{n-1/2}, 0) dX_{n-1/2} + min(w_{n+1/2}, 0) dX_{n+1/2}), zero velocity and zero difference at top and bottom;
+    w: (K-1, ...) boundary velocities, X: (K, ...) layer values"""
+    K = X.shape[0]
+    if K == 1: return np.zeros_like(X)
+    sh = (K - 1,) + (1,) * (X.ndim - 1)
+    d = (X[1:] - X[:-1]) / (cen[1:] - cen[:-1]).reshape(sh)
+    z = np.zeros((1,) + np.broadcast_shapes(w.shape[1:], d.shape[1:]))
+    w = np.broadcast_to(w, (K - 1,) + z.shape[1:]); d = np.broadcast_to(d, (K - 1,) + z.shape[1:])
+    w_up = np.concatenate([z, w]); w_down = np.concatenate([w, z])
+    d_up = np.concatenate([z, d]); d_down = np.concatenate([d, z])
+    return -(np.maximum(w_up, 0) * d_up + np.minimum(w_down, 0) * d_down)
+
+
+def centered_np(w, X, cen):
+    """documented centred vertical advection: -(w_{n+1/2} dX_{n+1/2} + w_{n-1/2} dX_{n-1/2}) / 2, zero boundary velocity"""
+    K = X.shape[0]
+    if K == 1: return np.zeros_like(X)
+    sh = (K - 1,) + (1,) * (X.ndim - 1)
+    d = (X[1:] - X[:-1]) / (cen[1:] - cen[:-1]).reshape(sh)
+    z = np.zeros((1,) + np.broadcast_shapes(w.shape[1:], d.shape[1:]))
+    wd = np.broadcast_to(w, (K - 1,) + z.shape[1:]) * np.broadcast_to(d, (K - 1,) + z.shape[1:])
+    return -0.5 * (np.concatenate([z, wd]) + np.concatenate([wd, z]))
+
+
+def compare_modal(ctx, clause, g, impl, spec_nodal, scale, tol=1e-10, extra_modal=None):
+    """impl: modal total tendency; spec_nodal: nodal values of the pointwise spec (+ an optional modal contribution
+    obtained by the linear spectral operators from independently evaluated nodal terms); all coefficients below the top wavenumber"""
     spec = to_modal(g, spec_nodal)
+    if extra_modal is not None: spec = spec + np.asarray(extra_modal, dtype=np.float64)
     a = np.asarray(impl, dtype=np.float64)[..., :-1]; b = spec[..., :-1]
     ctx.oracle_close(clause, a, b, scale=scale, tol_rel=tol)
     # the top total wavenumber of the explicit part is clipped, of the implicit part empty for resolved states
@@ -417,7 +457,8 @@ def r_pe_pointwise(ctx, a):
     fn = {k: ([poly_fn(t) for t in v] if k != 'lnps' and k != 'oro' else poly_fn(v)) for k, v in P.items()}
     T = [fn['Tp'][k] + float(tref[k]) for k in range(K)]
     p = dict(a=float(g.radius), Omega=specs.angular_velocity, R=specs.R, kappa=specs.kappa, g=specs.g, b=b, Rv=specs.R_vapor,
-             Cpv=specs.Cp_vapor, Cp=specs.Cp, kind=kind, Tref=tref)
+             Cpv=specs.Cp_vapor, Cp=specs.Cp, kind=kind, Tref=tref, vadv=a.get('vadv', 'centered'))
+    upwind = a.get('vadv', 'centered') == 'upwind'
     st = dict(psi=fn['psi'], chi=fn['chi'], T=T, lnps=fn['lnps'], oro=fn['oro'])
     tracers = {}
     if 'q' in fn: st['q'] = fn['q']; tracers[QN] = fn['q']
@@ -432,18 +473,42 @@ def r_pe_pointwise(ctx, a):
     oro = resolved(ctx, g, 'orography', nodal_of(fn['oro'], xyz), lmax=LM)
     trm = {n: resolved(ctx, g, n, nodal_of(v, xyz), lmax=LM) for n, v in tracers.items()}
     vort[..., 0, 0] = 0.0; div[..., 0, 0] = 0.0     # exact zero mean (the analysis leaves rounding noise)
-    eq = dyn.pe_equation(kind, c, specs, tref, oro)
+    # configuration options of the equation classes: vertical scheme and dense / matrix-free vertical products
+    opts = {}
+    if upwind: opts['vertical_advection'] = m['sc'].upwind_vertical_advection
+    if a.get('matmul') is not None: opts['vertical_matmul_method'] = a['matmul']
+    eq = dyn.pe_equation(kind, c, specs, tref, oro, **opts)
     kw = dict(vorticity=jnp.asarray(vort), divergence=jnp.asarray(div), temperature_variation=jnp.asarray(Tp),
               log_surface_pressure=jnp.asarray(lnps), tracers={n: jnp.asarray(v) for n, v in trm.items()})
     state = pe.State(**kw) if kind == 'dry' else pe.StateWithTime(sim_time=0.0, **kw)
     ex = eq.explicit_terms(state); im = eq.implicit_terms(state)
     tot = lambda name: np.asarray(getattr(ex, name), dtype=np.float64) + np.asarray(getattr(im, name), dtype=np.float64)
-    ctx.count('pe_pointwise:%s K=%d %s' % (kind, K, a['grid']))
+    ctx.count('pe_pointwise:%s K=%d %s vadv=%s matmul=%s' % (kind, K, a['grid'], a.get('vadv', 'centered'), a.get('matmul')))
     M = sp['mags']
+    Kk, cen, th, al = sigma_tables(b)
+    xv = xd = None; upT = 0.0; upX = {}; upsc = 0.0
+    if upwind:
+        # documented upwind differences, evaluated at the nodes from the exact nodal sigma_dot (polynomial ring) and fields
+        sd = nodal_of(F['sdot'], xyz) if K > 1 else np.zeros((0,) + x.shape)
+        sdG = nodal_of(F['sdotG'], xyz) if K > 1 else sd; sdD = nodal_of(F['sdotD'], xyz) if K > 1 else sd
+        if K > 1:
+            ctx.oracle('upwind cases: sigma_dot takes both signs (upward and downward motion)',
+                       float(sd.min()) < 0 < float(sd.max()), {'min': float(sd.min()), 'max': float(sd.max())})
+        Un = nodal_of(F['U'], xyz); Vn = nodal_of(F['V'], xyz); s2n = 1.0 / (1.0 - z * z)
+        Pu = -upwind_np(sd, Un, cen); Qu = -upwind_np(sd, Vn, cen)                 # + sigma_dot dU/dsigma in the momentum vector
+        A = jnp.asarray(to_modal(g, Pu * s2n)); B = jnp.asarray(to_modal(g, Qu * s2n))
+        xv = -np.asarray(g.clip_wavenumbers(g.curl_cos_lat((A, B), clip=False)), dtype=np.float64)
+        xd = -np.asarray(g.clip_wavenumbers(g.div_cos_lat((A, B), clip=False)), dtype=np.float64)
+        upsc = float(np.max(np.abs(xv))) + float(np.max(np.abs(xd)))
+        # temperature: T' and (explicitly) T_ref by upwind differences; the divergence part of sigma_dot acting on T_ref is
+        # inside the implicit operator H, which is built from centred differences (semi-implicit split)
+        trefb = tref.reshape((K,) + (1,) * x.ndim)
+        upT = upwind_np(sd, nodal_of(fn['Tp'], xyz), cen) + upwind_np(sdG, trefb, cen) + centered_np(sdD, trefb, cen)
+        upX = {n: upwind_np(sd, nodal_of(v, xyz), cen) for n, v in tracers.items()}
     compare_modal(ctx, f'{kind}: vorticity tendency = analysis of -k.curl((zeta+f) k x v + sigma_dot dv/dsigma + R Tv grad lnps)',
-                  g, tot('vorticity'), nodal_of(sp['vorticity'], xyz), maxabs(M['vorticity'], xyz) + 1e-300)
+                  g, tot('vorticity'), nodal_of(sp['vorticity'], xyz), maxabs(M['vorticity'], xyz) + upsc + 1e-300, extra_modal=xv)
     compare_modal(ctx, f'{kind}: divergence tendency = analysis of -div(...) - lap(KE + Phi)',
-                  g, tot('divergence'), nodal_of(sp['divergence'], xyz), maxabs(M['divergence'], xyz) + 1e-300)
+                  g, tot('divergence'), nodal_of(sp['divergence'], xyz), maxabs(M['divergence'], xyz) + upsc + 1e-300, extra_modal=xd)
     compare_modal(ctx, f'{kind}: log surface pressure tendency = analysis of -sum dsigma (div + u.grad lnps)',
                   g, tot('log_surface_pressure'), nodal_of([sp['lnps']], xyz), maxabs(M['lnps'], xyz) + 1e-300)
     Tn = nodal_of(T, xyz); wp = nodal_of(sp['T_omega'], xyz); adv = nodal_of(sp['T_adv'], xyz)
@@ -453,11 +518,12 @@ def r_pe_pointwise(ctx, a):
         fac = (1 + (specs.R_vapor / specs.R - 1) * qn) / (1 + (specs.Cp_vapor / specs.Cp - 1) * qn)
     ad = specs.kappa * Tn * fac * wp
     compare_modal(ctx, f'{kind}: temperature tendency = analysis of -u.grad T - sigma_dot dT/dsigma + kappa Tv omega/p',
-                  g, tot('temperature_variation'), adv + ad, float(np.max(np.abs(adv))) + float(np.max(np.abs(ad))) + 1e-300)
+                  g, tot('temperature_variation'), adv + ad + upT,
+                  float(np.max(np.abs(adv))) + float(np.max(np.abs(ad))) + float(np.max(np.abs(upT))) + 1e-300)
     for n, v in sp['tracers'].items():
         compare_modal(ctx, f'{kind}: tracer tendency = analysis of -u.grad X - sigma_dot dX/dsigma', g,
                       np.asarray(ex.tracers[n], dtype=np.float64) + np.asarray(im.tracers[n], dtype=np.float64),
-                      nodal_of(v, xyz), maxabs(v, xyz) + 1e-300)
+                      nodal_of(v, xyz) + upX.get(n, 0.0), maxabs(v, xyz) + float(np.max(np.abs(upX.get(n, 0.0)))) + 1e-300)
 
 
 # ---------------------------------------------------------------------------
@@ -829,6 +895,18 @@ def r_column(ctx, a):
     ctx.corr('plugin spec: sigma_dot', sdn, sd, scale=sc)
     ctx.corr('plugin spec: -sigma_dot dT/dsigma', vadv_np(sdn, Tf), vT, scale=sc * float(np.max(np.abs(Tf)) + 1) / float(np.min(np.diff(cen))) if K > 1 else 1.0)
     ctx.corr('plugin spec: omega/p', wpn, wp, scale=(sc * float(np.max(np.abs(al))) / float(np.min(th)) + float(np.max(np.abs(ug))) + 1e-300))
+    # the upwind option: implementation = Coq spec operator = the plugin's numpy form used by Oracle A (mixed-sign velocities)
+    if K > 1:
+        wq = F(a['wup']); wf_ = np.array([float(t) for t in wq])
+        arrs_u = list(arrs); arrs_u[4] = wq + [0]
+        mu_ = ctx.model.call(3, [K], arrs_u)
+        usc = float(np.max(np.abs(wf_))) * float(np.max(np.abs(Tf)) + 1) / float(np.min(np.diff(cen))) + 1e-300
+        ctx.corr('plugin spec: upwind -sigma_dot dX/dsigma', upwind_np(wf_, Tf, cen), mu_, scale=usc)
+        m_ = dyn.mods(); sc_ = m_['sc']
+        impl_u = np.asarray(sc_.upwind_vertical_advection(m_['jnp'].asarray(wf_.reshape(K - 1, 1, 1)), m_['jnp'].asarray(Tf.reshape(K, 1, 1)),
+                                                          sc_.SigmaCoordinates(b)), dtype=np.float64).ravel()
+        ctx.corr('sigma_coordinates.upwind_vertical_advection = spec upwind operator', impl_u, mu_, scale=usc)
+        ctx.oracle('upwind correspondence exercises both signs of the velocity', bool(wf_.min() < 0 < wf_.max()) or K < 3, {'w': wf_.tolist()})
     ctx.corr('plugin spec: hydrostatic geopotential', phin, phi, scale=float(abs(float(phis)) + np.max(np.abs(G)) * np.sum(np.abs(Tf))) + 1e-300)
 
 
@@ -882,6 +960,19 @@ def generate(ctx):
         deg = 2 if gname != 'g7' else 1
         yield 'pe_pointwise', dict(kind=kind, consts=consts, radius=rad, b=lev(K), grid=gname, tref=prof(K), degree=deg,
                                    polys=_pe_polys(rng, K, kind, deg, amp))
+    # configuration options: upwind vertical advection (uniform and height-varying T_ref), dense / matrix-free vertical products
+    oplan = [('dry', 3, 'upwind', None, 0), ('moist', 3, 'upwind', None, 1), ('dry', 3, 'centered', 'sparse', 0), ('moist', 4, 'centered', 'sparse', 0),
+             ('dry', 3, 'centered', 'dense', 0), ('cloud', 2, 'upwind', 'sparse', 0)]
+    if not quick:
+        oplan += [(k, K, v, mm, u) for k in ('dry', 'time', 'moist', 'cloud') for K in (2, 3, 5)
+                  for (v, mm, u) in (('upwind', None, 0), ('upwind', 'sparse', 1), ('centered', 'sparse', 0), ('centered', 'dense', 0))]
+    for r, (kind, K, vadv_, mm, uni) in enumerate(oplan):
+        consts, rad = _consts(rng, r + 1)
+        bb = lev(K)
+        while K > 1 and abs((bb[1] - bb[0]) - (bb[-1] - bb[-2])) < 1e-3: bb = lev(K)      # top and bottom thickness differ
+        tr = [float(rng.integers(220, 300))] * K if uni else prof(K)
+        yield 'pe_pointwise', dict(kind=kind, consts=consts, radius=rad, b=bb, grid='g9', tref=tr, degree=2, vadv=vadv_, matmul=mm,
+                                   polys=_pe_polys(rng, K, kind, 2, dict(amp, chi=0.03)))
     for r, K in enumerate([1, 3] if quick else [1, 2, 3, 4, 2, 3]):
         dens = np.cumsum(np.concatenate([[1.0], rng.integers(1, 5, size=K - 1) / 8.0])).tolist()
         polys = dict(psi=[rand_poly(rng, 2, amp=0.1) for _ in range(K)], chi=[rand_poly(rng, 2, amp=0.02) for _ in range(K)],
@@ -931,7 +1022,8 @@ def generate(ctx):
             sr = lambda n, lo=-16, hi=16, den=8: (rng.integers(lo, hi + 1, size=n) / den).tolist()
             yield 'column', dict(K=K, b=lev(K), consts=[0.25 * int(rng.integers(1, 9)), 0.25, 0.125 * int(rng.integers(9, 17)), 0.25 * int(rng.integers(20, 40))],
                                  u=sr(K), v=sr(K), vort=sr(K), div=sr(K), Tp=sr(K, -40, 40, 4), q=sr(K, 0, 8, 256), tref=sr(K, 800, 1200, 4),
-                                 node=sr(5, -12, 12, 8)[:2] + [float(rng.integers(8, 40)) / 8] + sr(2, -12, 12, 8))
+                                 node=sr(5, -12, 12, 8)[:2] + [float(rng.integers(8, 40)) / 8] + sr(2, -12, 12, 8),
+                                 wup=[(-1) ** j * float(rng.integers(1, 17)) / 8 for j in range(max(K - 1, 0))])
     for K in ([1, 3] if quick else [1, 2, 3, 5, 8]):
         yield 'geopotential', dict(grid='g7', b=lev(K), tref=prof(K), R=[287.0, 1.0, 0.3][K % 3], g=[9.80616, 1.0, 72.0][K % 3],
                                    seed=int(rng.integers(1 << 30)), coefs=[[0, 0], [0, 2], [3, 2], [2, 1]])
